@@ -171,8 +171,8 @@ def checkDomainSuffix (name : BList) : Res Unit :=
 
 @[inline] def isAsciiAlpha (b : UInt8) : Bool := (0x41 ≤ b && b ≤ 0x5A) || (0x61 ≤ b && b ≤ 0x7A)
 
-/-- `check_service_name`.  `&name[0..1]` panics when the service label is empty and when its
-    first character is longer than one byte. -/
+/-- `check_service_name`.  `name.starts_with('_')` (repair of D5: `&name[0..1]` used to panic
+    when the service label is empty or starts with a multi-byte character). -/
 def checkServiceName (fullname : BList) : Res Unit :=
   match checkDomainSuffix fullname with
   | .err => .err
@@ -180,10 +180,9 @@ def checkServiceName (fullname : BList) : Res Unit :=
   | .ok () =>
     match (splitOn DOT (fullname.take (fullname.length - DOMAIN_LEN))).getLast? with
     | none => .err
-    | some [] => .panic
+    | some [] => .err
     | some (c :: name) =>
-      if c ≥ 0x80 then .panic
-      else if c ≠ UNDERSCORE then .err
+      if c ≠ UNDERSCORE then .err
       else if containsSub [HYPHEN, HYPHEN] name then .err
       else if name.head? = some HYPHEN || name.getLast? = some HYPHEN then .err
       else if !name.any isAsciiAlpha then .err
